@@ -98,7 +98,11 @@ class CTRLInterface(UDPLink):
 		response = "RSP " + " ".join(request) + "\0"
 		# If configured, delay sending the RSP message
 		if self.rsp_delay_ms > 0:
-			time.sleep(self.rsp_delay_ms / 1000.0)
+			try:
+				time.sleep(self.rsp_delay_ms / 1000.0)
+			except (OverflowError, ValueError):
+				# e.g. FAKE_TRXC_DELAY with a value time.sleep() cannot take
+				log.error("Cannot delay the response by %d ms" % self.rsp_delay_ms)
 		# Now we have something like "RSP TXTUNE 0 941600"
 		self.sendto(response, remote)
 
